@@ -213,6 +213,18 @@ def parse_sources():
     if ec and not _one_of(ec, "ls", "sl", "lessthan::update_components (is_local / is_signal test)", problems):
         invalidate("lessthan::update_components", "the type test is not `is_local() || is_signal()` in either order")
         ec = None
+    # what a second assignment of a component key does (fourth audit): `insert` = the last one wins (the tool until the
+    # deviation C11-component-assigned-on-two-paths is repaired), `weakest` = the weaker bit size is kept (the proposed repair)
+    res["rangecheck_policy"] = "unrecognised"
+    if ec:
+        w, pl, gd = ec["weakest"], ec["plain"], ec["guarded"]
+        if len(pl) == 1 and not w and not gd:
+            res["rangecheck_policy"], ec["rc_idx"] = "insert", pl[0]["rc_idx"]
+        elif len(w) == 1 and len(gd) == 1 and not pl and w[0]["w_idx"] == gd[0]["rc_idx"]:
+            res["rangecheck_policy"], ec["rc_idx"] = "weakest", gd[0]["rc_idx"]
+        else:
+            invalidate("lessthan::update_components", "the Num2Bits arm is neither a plain insert nor the keep-the-weakest form")
+            ec = None
     if ec and ei and ec["rc_idx"] == 0:
         res["lessthan_literals"] = ((ec["lt_name"], ec["lt_arity"]), (ec["rc_name"], ec["rc_arity"]), ei["rc_signal"], ei["lt_signal"])
     else:
@@ -287,6 +299,9 @@ def parse_doc():
         cols.append(var)
         bits.append(int(m.group(2)) if m else -1)
     m = re.search(r"BN254 scalar field \(an? (\d+)[ -]bit prime field\)", text)
+    if not m:
+        # a reworded sentence (fourth audit): the first bit size stated within the sentence that names BN254
+        m = re.search(r"BN254[^.\n]{0,160}?\b(\d+)[ -]?bits?\b", text)
     default_bits = int(m.group(1)) if m else -1
     cli = src("cli")
     m = re.search(r"///\s*Set curve \(([^)]*)\)", cli)
@@ -476,7 +491,7 @@ def safe(fn, fallback):
 
 PS_FALLBACK = {"arrays": [], "dispatch": [], "bn254_exact_match": False, "nonstrict_curve": ("CUnrecognised", ""),
                "nonstrict_exempt": [], "nonstrict_guards": [("Num2Bits", 1, 0, "CUnrecognised", 0)], "lessthan_guard": ("CUnrecognised", 0),
-               "lessthan_literals": (("", 0), ("", 0), "", ""), "from_str_normaliser": "unrecognised", "from_str_arms": [], "enum_variants": [],
+               "lessthan_literals": (("", 0), ("", 0), "", ""), "rangecheck_policy": "unrecognised", "from_str_normaliser": "unrecognised", "from_str_arms": [], "enum_variants": [],
                "prime_literals": [], "shape": [("extractor", False)], "cli_default_curve": ""}
 PD_FALLBACK = {"rows": [], "columns": [], "bits": [], "default_bits": -1, "help_names": []}
 
@@ -514,6 +529,9 @@ def gen(ctx):
     t += "Definition lessthan_template : string * Z := (%s, %s).\n" % (cstr(a), cz(an))
     t += "Definition rangecheck_template : string * Z := (%s, %s).\n" % (cstr(b), cz(bn))
     t += "Definition rangecheck_signal : string := %s.\nDefinition lessthan_signal : string := %s.\n\n" % (cstr(s1), cstr(s2))
+    t += ("(* a second assignment of a component key to the range-check template: \"insert\" = HashMap::insert, the last one wins;\n"
+          "   \"weakest\" = the weaker bit size is kept *)\n")
+    t += "Definition rangecheck_policy : string := %s.\n\n" % cstr(ps.get("rangecheck_policy", "unrecognised"))
     t += "(* Curve::from_str: match &curve.<normaliser>()[..] { literal => Ok(Curve::variant), ... } *)\n"
     t += "Definition from_str_normaliser : string := %s.\n" % cstr(ps["from_str_normaliser"])
     t += "Definition from_str_arms : list (string * string) := %s.\n" % clist(
@@ -647,22 +665,24 @@ class Tmpl:
         """`var[acc] = tname(args)`.  Third audit: the model statement is no longer written here - it is DERIVED
         from the tool's IR (harness `curves ir`, see ir_programs).  tk / var / tname / args are kept as the
         generator's EXPECTATION of that abstraction and compared with the derived one (expectation_mismatches)."""
-        st = {"expect": {"k": "assign", "tk": tk, "var": var, "name": tname,
+        st = {"expect": {"k": "assign", "tk": tk, "var": var, "name": tname, "acc": list(acc),
                          "args": [a if (a is None or isinstance(a, (bool, int))) else "curve-dependent" for a in args]},
               "checks": list(checks), "text": text.strip()}
         self.stmts.append(st)
         self.body.append((text, st))
 
     def constrain(self, text, var, acc, value):
-        st = {"expect": {"k": "constrain", "var": var, "shown": value, "acc_len": len(acc)}, "checks": [], "text": text.strip()}
+        st = {"expect": {"k": "constrain", "var": var, "shown": value, "acc": list(acc)}, "checks": [], "text": text.strip()}
         self.stmts.append(st)
         self.body.append((text, st))
 
-    def lt_value(self, value, sizes, note=""):
-        """Oracle entry: `value` is an input of LessThan; sizes = bit sizes of the
-        Num2Bits instances it is also fed to (int | None for non-constant |
-        callable(curve variant) -> int)."""
-        self.values[value] = {"sizes": sizes, "note": note}
+    def lt_value(self, value, sizes, note="", shown=None, two_paths=False):
+        """Oracle entry: `value` (a key unique in the file) is an input of LessThan, printed as `shown` (default:
+        the key itself; two structurally different values may print alike, e.g. `x[j]` before and after `j = j + 1`);
+        sizes = the range checks it is also fed to, each int | None for non-constant | callable(curve variant) -> int |
+        ("every", [sizes]) for ONE component variable that is assigned Num2Bits(k) on several paths - such a component
+        is a range check only if every one of its assignments is (fourth audit)."""
+        self.values[value] = {"sizes": sizes, "note": note, "shown": shown or value, "two_paths": two_paths}
 
 
 class CFile:
@@ -922,6 +942,94 @@ def forms_files(ctx):
     return files
 
 
+def keys_files(ctx):
+    """Fourth audit.  (1) Keys of EVERY constructor of `Expression` that can stand on the right of `<==` and of every
+    field `Expression::eq` inspects: calls that differ in the function or in an argument, ternaries that differ in the
+    condition / the true branch / the false branch, the three prefix operators over one operand, two numbers, the same
+    array element before and after its index variable is re-assigned (the keys differ in an SSA version only), nested
+    compounds that differ deep inside, a signal declared again in an inner block (the keys differ in the shadowing
+    suffix only).  In each group one value is range-checked and a structurally different one is compared: it must be
+    reported.  (2) A component VARIABLE assigned on several paths (`x = Num2Bits(300)` in one branch, `x = Num2Bits(20)`
+    in the other): a range check only if every assignment is one."""
+    f = CFile("lt_keys", pre=["function kf(x) { return x + 1; }", "function kg(x) { return x + 2; }"])
+    for vi, var in enumerate(VARIANTS):
+        b = DOC_PRIME[var].bit_length()
+        for (g, w) in ((20, 300), (b - 2, b - 1)):
+            u = "%d_%d" % (vi, g)
+            t = f.add(Tmpl("Keys%s" % u, "c"))
+            for nm in "abyz":
+                t.raw("signal input %s%s;" % (nm, u))
+            t.raw("signal input x%s[4];" % u)
+            a, bb, y, z = ["%s%s" % (nm, u) for nm in "abyz"]
+            cnt = [0]
+
+            def group(checked, compared, size=g):
+                """checked: (text, printed) fed to Num2Bits(size); compared: [(text, printed, reported?)] fed to one LessThan each"""
+                cnt[0] += 1
+                c = "n%s_%d" % (u, cnt[0])
+                t.assign("component %s = Num2Bits(%d);" % (c, size), "TComponent", c, [], "Num2Bits", [size], checks=[("nonstrict", "Num2Bits", size)])
+                t.constrain("%s.in <== %s;" % (c, checked[0]), c, ["in"], checked[1])
+                for k, (text, shown, reported) in enumerate(compared):
+                    cnt[0] += 1
+                    l = "l%s_%d" % (u, cnt[0])
+                    t.assign("component %s = LessThan(8);" % l, "TComponent", l, [], "LessThan", [8])
+                    t.constrain("%s.in[%d] <== %s;" % (l, k % 2, text), l, ["in", k % 2], shown)
+                    t.lt_value("%s#%d" % (shown, cnt[0]), [] if reported else [size], shown=shown)
+            # calls: other function, other argument
+            group(("kf(%s)" % a, "kf(%s)" % a), [("kg(%s)" % a, "kg(%s)" % a, True), ("kf(%s)" % a, "kf(%s)" % a, False), ("kf(%s)" % bb, "kf(%s)" % bb, True)])
+            # ternaries: other condition, other branches
+            sw = lambda k, p, q: ("(c == %d) ? %s : %s" % (k, p, q), "((c == %d)? %s : %s)" % (k, p, q))
+            group(sw(1, a, bb), [sw(2, a, bb) + (True,), sw(1, a, bb) + (False,), sw(1, bb, bb) + (True,), sw(1, a, a) + (True,)])
+            # the three prefix operators over one operand
+            group(("-%s" % y, "-(%s)" % y), [("~%s" % y, "~(%s)" % y, True), ("!%s" % y, "!(%s)" % y, True), ("-%s" % y, "-(%s)" % y, False)])
+            group(("~%s" % z, "~(%s)" % z), [("-%s" % z, "-(%s)" % z, True), ("~%s" % z, "~(%s)" % z, False)])
+            # numbers
+            num = 1000 + 10 * len(f.tmpls)            # printed forms are compared file-wide: other numbers in each template
+            group((str(num), str(num)), [(str(num + 1), str(num + 1), True), (str(num), str(num), False)])
+            # nested compounds that differ deep inside
+            group(("kf(%s) + %s" % (a, z), "(kf(%s) + %s)" % (a, z)),
+                  [("kf(%s) + %s" % (bb, z), "(kf(%s) + %s)" % (bb, z), True), ("kf(%s) + %s" % (a, z), "(kf(%s) + %s)" % (a, z), False),
+                   ("kf(%s) - %s" % (a, z), "(kf(%s) - %s)" % (a, z), True)])
+            # the same array element before and after its index variable changes: the printed form is the same,
+            # the keys differ in the SSA version of j
+            t.raw("var j%s = 0;" % u)
+            cnt[0] += 1
+            c = "n%s_%d" % (u, cnt[0])
+            t.assign("component %s = Num2Bits(%d);" % (c, g), "TComponent", c, [], "Num2Bits", [g], checks=[("nonstrict", "Num2Bits", g)])
+            t.constrain("%s.in <== x%s[j%s];" % (c, u, u), c, ["in"], "x%s[j%s]" % (u, u))
+            cnt[0] += 1
+            l = "l%s_%d" % (u, cnt[0])
+            t.assign("component %s = LessThan(8);" % l, "TComponent", l, [], "LessThan", [8])
+            t.constrain("%s.in[0] <== x%s[j%s];" % (l, u, u), l, ["in", 0], "x%s[j%s]" % (u, u))
+            t.lt_value("x%s[j%s]#before" % (u, u), [g], shown="x%s[j%s]" % (u, u))
+            t.raw("j%s = j%s + 1;" % (u, u))
+            cnt[0] += 1
+            l = "l%s_%d" % (u, cnt[0])
+            t.assign("component %s = LessThan(8);" % l, "TComponent", l, [], "LessThan", [8])
+            t.constrain("%s.in[1] <== x%s[j%s];" % (l, u, u), l, ["in", 1], "x%s[j%s]" % (u, u))
+            t.lt_value("x%s[j%s]#after" % (u, u), [], shown="x%s[j%s]" % (u, u))
+            # a component variable assigned on several paths
+            for pi, (first, second) in enumerate(((w, g), (g, w), (g, g), (w, w), (None, g), (g, None))):
+                sig = "tp%s_%d" % (u, pi)
+                x = "xp%s_%d" % (u, pi)
+                t.raw("signal input %s;" % sig)
+                t.raw("component %s;" % x)
+                t.raw("if (c == %d) {" % (pi + 1))
+                t.assign("  %s = Num2Bits(%s);" % (x, "c" if first is None else first), "TComponent", x, [], "Num2Bits", [first],
+                         checks=[("nonstrict", "Num2Bits", first)])
+                t.raw("} else {")
+                t.assign("  %s = Num2Bits(%s);" % (x, "c" if second is None else second), "TComponent", x, [], "Num2Bits", [second],
+                         checks=[("nonstrict", "Num2Bits", second)])
+                t.raw("}")
+                t.constrain("%s.in <== %s;" % (x, sig), x, ["in"], sig)
+                cnt[0] += 1
+                l = "l%s_%d" % (u, cnt[0])
+                t.assign("component %s = LessThan(8);" % l, "TComponent", l, [], "LessThan", [8])
+                t.constrain("%s.in[0] <== %s;" % (l, sig), l, ["in", 0], sig)
+                t.lt_value(sig, [("every", [first, second])], two_paths=True)
+    return [f]
+
+
 def build_files(ctx, doc_rows):
     files = []
     uni = name_universe(doc_rows)
@@ -945,8 +1053,12 @@ def build_files(ctx, doc_rows):
     t.raw("component late;")
     t.assign("late = Poseidon(2);", "TComponent", "late", [], "Poseidon", [2], checks=[("bn254", "Poseidon")])
     t.assign("component par = parallel Sign();", "TComponent", "par", [], "Sign", [], checks=[("bn254", "Sign")])
-    t.assign("var loc = Sign();", "TLocal", "loc", [], "Sign", [])
-    t.assign("var loc2 = Num2Bits(254);", "TLocal", "loc2", [], "Num2Bits", [254])
+    # a call assigned to a local variable is a function call, not an instantiation: nothing is flagged (oracle entry
+    # since the fourth audit: the type knowledge the harness reads is the tool's own, only the oracle can object)
+    t.assign("var loc = Sign();", "TLocal", "loc", [], "Sign", [], checks=[("none", "Sign")])
+    t.assign("var loc2 = Num2Bits(254);", "TLocal", "loc2", [], "Num2Bits", [254], checks=[("none", "Num2Bits")])
+    t.assign("var loc3 = Bits2Num(n);", "TLocal", "loc3", [], "Bits2Num", [None], checks=[("none", "Bits2Num")])
+    t.assign("var loc4 = BabyPbk();", "TLocal", "loc4", [], "BabyPbk", [], checks=[("none", "BabyPbk")])
     t.assign("component withargs = MiMC7(91);", "TComponent", "withargs", [], "MiMC7", [91], checks=[("bn254", "MiMC7")])
     t.assign("component two = Pedersen(n, 3);", "TComponent", "two", [], "Pedersen", [None, 3], checks=[("bn254", "Pedersen")])
     t.raw("if (n == 1) {")
@@ -974,11 +1086,11 @@ def build_files(ctx, doc_rows):
                                  "template Num2Bits(n) { signal input in; signal output out[n]; out[0] <== in; }"])
     t = f.add(Tmpl("NamesAnon"))
     t.raw("signal input a;")
-    t.assign("signal o1 <== Sign()(a);", "TComponent", "anon1", [], "Sign", [], checks=[("bn254", "Sign")])
-    t.assign("signal o2 <== BabyPbk()(a);", "TComponent", "anon2", [], "BabyPbk", [], checks=[("bn254", "BabyPbk")])
-    t.assign("signal o3 <== IsZero()(a);", "TComponent", "anon3", [], "IsZero", [], checks=[("bn254", "IsZero")])
-    t.assign("signal o4[254] <== Num2Bits(254)(a);", "TComponent", "anon4", [], "Num2Bits", [254], checks=[("nonstrict", "Num2Bits", 254)])
-    t.assign("signal o5[253] <== Num2Bits(253)(a);", "TComponent", "anon5", [], "Num2Bits", [253], checks=[("nonstrict", "Num2Bits", 253)])
+    t.assign("signal o1 <== Sign()(a);", "TComponent", None, [], "Sign", [], checks=[("bn254", "Sign")])
+    t.assign("signal o2 <== BabyPbk()(a);", "TComponent", None, [], "BabyPbk", [], checks=[("bn254", "BabyPbk")])
+    t.assign("signal o3 <== IsZero()(a);", "TComponent", None, [], "IsZero", [], checks=[("bn254", "IsZero")])
+    t.assign("signal o4[254] <== Num2Bits(254)(a);", "TComponent", None, [], "Num2Bits", [254], checks=[("nonstrict", "Num2Bits", 254)])
+    t.assign("signal o5[253] <== Num2Bits(253)(a);", "TComponent", None, [], "Num2Bits", [253], checks=[("nonstrict", "Num2Bits", 253)])
     files.append(f)
     # 4./5. Num2Bits(n), Bits2Num(n) for all n in 0..300
     for tn, fn in (("Num2Bits", "n2b"), ("Bits2Num", "b2n")):
@@ -1187,7 +1299,8 @@ def build_files(ctx, doc_rows):
     t.assign("component lg = LessThan(8);", "TComponent", "lg", [], "LessThan", [8])
     t.constrain("lg.inp[0] <== w12;", "lg", ["inp", 0], "w12")
     t.constrain("lg.in <== w13;", "lg", ["in"], "w13")
-    # a component variable re-used (HashMap::insert overwrites) - model only
+    # another comparator template: its inputs are not tracked (model against binary); a component variable that is
+    # really assigned twice is generated by keys_files (fourth audit)
     t.assign("component lh = LessEqThan(8);", "TComponent", "lh", [], "LessEqThan", [8])
     t.constrain("lh.in[0] <== w14;", "lh", ["in", 0], "w14")
     # sizes that are constants only modulo the prime; boundary sizes per curve
@@ -1242,6 +1355,7 @@ def build_files(ctx, doc_rows):
     # in an operator or in an index only, prefix operators, `==>`, `<--`, array literals, anonymous components,
     # inputs inside loops, shadowed component names, hexadecimal sizes, a main component
     files += forms_files(ctx)
+    files += keys_files(ctx)
     # 10.. seeded random mixtures (names, sizes, LessThan inputs with several range checks; the values are scalar
     # names, array elements and compound expressions over a small pool, so that structurally different values
     # with the same operands / the same array meet in one definition)
@@ -1390,20 +1504,44 @@ def model_eval(ctx, names, dumps):
 
 
 def model_spellings(ctx, spellings):
-    """Model.Curves.parse_curve on every spelling of the sweep (vm_compute) -> [variant | "reject" | "unmodelled"]."""
-    v = ["From Coq Require Import ZArith List String Ascii.", "Require Import Model.Base Model.Curves Gen.CurveNames.",
+    """Model.Curves on every spelling of the sweep (vm_compute) ->
+    ([parse_curve: variant | "reject" | "unmodelled"], [unicode_upper: bytes | None], [parse_curve_unicode: ...])."""
+    items = ";\n  ".join(cbytes(s) for s in spellings)
+    v = ["From Coq Require Import ZArith NArith List String Ascii.", "Require Import Model.Base Model.Curves Gen.CurveNames.",
          "Import ListNotations.", "Open Scope string_scope.", "Open Scope list_scope.", "Open Scope Z_scope.", "",
          "Definition show (r : parse_result) : string := match r with Accepted c => variant_name c | Rejected => \"reject\" | Unmodelled => \"unmodelled\" end.",
-         "Eval vm_compute in (List.map (fun s => show (parse_curve s)) [\n  %s\n])." % ";\n  ".join(cbytes(s) for s in spellings)]
+         "Definition spellings : list string := [\n  %s\n]." % items,
+         "Eval vm_compute in (List.map (fun s => show (parse_curve s)) spellings).",
+         "Eval vm_compute in (List.map (fun s => match unicode_upper s with Some u => List.map (fun a => Z.of_N (N_of_ascii a)) (list_ascii_of_string u) | None => [-1] end) spellings).",
+         "Eval vm_compute in (List.map (fun s => show (parse_curve_unicode s)) spellings)."]
     path = os.path.join(ctx.work, "cases_spellings.v")
     open(path, "w").write("\n".join(v) + "\n")
     rc, out, err = common.sh(["coqc"] + common.coq_flags() + ["-o", path + "o", path], cwd=common.COQ, timeout=600)
     if rc != 0:
         raise common.BuildError("model evaluation %s failed" % path, (out + err)[-3000:])
-    body = re.split(r"(?m)^\s*: ", re.split(r"(?m)^\s*= ", out)[1])[0]
-    res = re.findall(r'"([A-Za-z0-9_]*)"', body)
-    if len(res) != len(spellings):
-        raise common.BuildError("model evaluation of the spellings: %d results for %d spellings" % (len(res), len(spellings)), out[-2000:])
+    chunks = [re.split(r"(?m)^\s*: list", c)[0] for c in re.split(r"(?m)^\s*= ", out)[1:]]
+    if len(chunks) != 3:
+        raise common.BuildError("model evaluation of the spellings: %d results for 3 queries" % len(chunks), out[-2000:])
+    r1 = re.findall(r'"([A-Za-z0-9_]*)"', chunks[0])
+    r3 = re.findall(r'"([A-Za-z0-9_]*)"', chunks[2])
+    r2 = []
+    for inner in re.findall(r"\[([^\[\]]*)\]", chunks[1].strip()[1:-1] if chunks[1].strip().startswith("[") else chunks[1]):
+        nums = [int(x) for x in re.findall(r"-?\d+", inner)]
+        r2.append(None if nums == [-1] else bytes(nums))
+    if not (len(r1) == len(r2) == len(r3) == len(spellings)):
+        raise common.BuildError("model evaluation of the spellings: %d / %d / %d results for %d spellings" % (len(r1), len(r2), len(r3), len(spellings)), out[-2000:])
+    return r1, r2, r3
+
+
+def exec_to_uppercase(binary, spellings):
+    """str::to_uppercase executed on every spelling -> [str]"""
+    out = common.run_lines(binary, ["upper"], [hexs(s) for s in spellings])
+    res = []
+    for s, line in zip(spellings, out):
+        h, r = line.split(" = ")
+        if h != hexs(s):
+            raise common.BuildError("curves upper: output out of step", line)
+        res.append("" if r == "-" else bytes.fromhex(r).decode("utf-8"))
     return res
 
 
@@ -1429,11 +1567,20 @@ def nonstrict_expected(n):
 def lessthan_expected(sizes, cv):
     """Reported unless some Num2Bits(k) with constant k and 2^k - 1 <= p/2 checks the value."""
     p = DOC_PRIME[cv]
-    for sz in sizes:
+
+    def good(sz):
+        if isinstance(sz, tuple) and sz[0] == "every":
+            return bool(sz[1]) and all(good(s) for s in sz[1])
         k = size_value(sz, cv)
-        if isinstance(k, int) and not isinstance(k, bool) and k >= 0 and (k < 4096 and (1 << k) - 1 <= p // 2):
-            return False
-    return True
+        return isinstance(k, int) and not isinstance(k, bool) and k >= 0 and (k < 4096 and (1 << k) - 1 <= p // 2)
+    return not any(good(sz) for sz in sizes)
+
+
+def show_size(sz, cv):
+    if isinstance(sz, tuple) and sz[0] == "every":
+        return {"one component assigned on several paths": [show_size(s, cv) for s in sz[1]]}
+    k = size_value(sz, cv)
+    return "non-constant" if k is None else k
 
 
 PROBE = """pragma circom 2.1.0;
@@ -1608,6 +1755,13 @@ def check_file(f, text, cv, impl, model, dump, doc, shown=None):
                                      "impl": "%d report(s)" % got, "spec": "flagged" if want else "not flagged (documentation table, Circomlib spelling)"})
                     if want or chk[1].lower() in [circomlib_spelling(n).lower() for n, _ in doc["rows"]]:
                         nontriv.add(("CS0016", shown, chk[1]))
+                elif chk[0] == "none":
+                    got = i16.get(st["line"], 0) + i10.get(st["line"], 0)
+                    if got:
+                        fail.append({"input": {"kind": "circom", "file": f.name, "curve": shown, "line": st["line"], "statement": st["text"],
+                                               "rule": "CS0016" if i16.get(st["line"], 0) else "CS0010", "subject": chk[1]},
+                                     "impl": "%d report(s)" % got, "spec": "not flagged: a call assigned to a local variable is no instantiation"})
+                    nontriv.add(("local-call", shown, chk[1]))
                 elif chk[0] == "nonstrict":
                     if cv != "Bn254":
                         # the property speaks of the default curve only; under the other curves the statement is compared
@@ -1625,65 +1779,99 @@ def check_file(f, text, cv, impl, model, dump, doc, shown=None):
                                      "spec": ("flagged" if want else "not flagged") + ": size %s, documented rule n < 254" % ("non-constant" if n is None else n)})
                     if n is None or 250 <= n <= 258 or callable(chk[2]):
                         nontriv.add(("CS0010", shown, chk[1], st["text"]))
+        # values that print alike are judged together: as many reports as values that need one
+        by_shown = {}
         for v, info in t.values.items():
-            evals += 1
-            want = lessthan_expected(info["sizes"], cv)
-            got = i14.get(v, 0)
-            if (got == 1) != want or got > 1:
-                fail.append({"input": {"kind": "circom", "file": f.name, "curve": shown, "value": v, "rule": "CS0014",
-                                       "sizes": [("non-constant" if size_value(s, cv) is None else size_value(s, cv)) for s in info["sizes"]]},
-                             "impl": "%d report(s)" % got,
-                             "spec": ("reported" if want else "range-checked") + ": 2^k - 1 <= p/2 for the documented prime of %s" % cv})
+            by_shown.setdefault(info["shown"], []).append((v, info))
+        for disp, group in by_shown.items():
+            evals += len(group)
+            wants = [lessthan_expected(info["sizes"], cv) for _, info in group]
+            got = i14.get(disp, 0)
+            if got != sum(wants):
+                # the value to blame: one that wants the opposite of what was seen (all of them when the count is off)
+                for (v, info), want in zip(group, wants):
+                    if len(group) == 1 or want == (got < sum(wants)):
+                        fail.append({"input": {"kind": "circom", "file": f.name, "curve": shown, "value": disp, "key": v, "rule": "CS0014",
+                                               "sizes": [show_size(s, cv) for s in info["sizes"]], "two_paths": info["two_paths"]},
+                                     "impl": "%d report(s) for the %d value(s) printed `%s`" % (got, len(group), disp),
+                                     "spec": ("reported" if want else "range-checked") + ": 2^k - 1 <= p/2 for the documented prime of %s%s"
+                                             % (cv, " (%d report(s) expected)" % sum(wants) if len(group) > 1 else "")})
+                        break
             b = DOC_PRIME[cv].bit_length()
-            ks = [size_value(s, cv) for s in info["sizes"]]
-            if any(k is None or callable(s) or abs(k - b) <= 3 for k, s in zip(ks, info["sizes"])) or len(ks) != 1:
-                nontriv.add(("CS0014", shown, v))
+            for v, info in group:
+                flat = [s for sz in info["sizes"] for s in (sz[1] if isinstance(sz, tuple) else [sz])]
+                ks = [size_value(s, cv) for s in flat]
+                if any(k is None or callable(s) or abs(k - b) <= 3 for k, s in zip(ks, flat)) or len(ks) != 1:
+                    nontriv.add(("CS0014", shown, v))
     return dis, fail, evals, nontriv
 
 
+def _acc_matches(expected, derived):
+    """Generator's access path (int = literal index, negative int or one-letter name = an index that is a variable,
+    other text = signal name) against the derived one ([["i", identity] | ["f", name]])."""
+    if len(expected) != len(derived):
+        return False
+    for x, (k, v) in zip(expected, derived):
+        if isinstance(x, int) and x >= 0:
+            ok = k == "i" and v == "(n %d)" % x
+        elif isinstance(x, int) or len(x) == 1:
+            ok = k == "i" and not v.startswith("(n ")
+        else:
+            ok = k == "f" and v == x
+        if not ok:
+            return False
+    return True
+
+
 def compare_expectation(files, dumps):
-    """The generator states, per generated statement, what it expects the passes to see (type knowledge, template
-    name, argument value knowledge; printed value and access length of a constraint).  Since the third audit the
-    model is fed with the abstraction DERIVED from the tool's IR; the expectation is compared with it and the
-    differences are counted and listed (both sides are machinery, so a difference is information, not a verdict:
-    what is wrong with the TOOL shows in the oracle comparison)."""
-    compared = mism = 0
-    first = []
+    """The generator states, per generated statement, what it expects the passes to see (type knowledge, variable,
+    access path, template name, argument value knowledge; variable, access path and printed value of a constraint).
+    The model is fed with the abstraction DERIVED from the tool's IR (`curves ir`); the expectation is compared with
+    it under EVERY curve.  Fourth audit: a mismatch is a broken correspondence (it used to be written into the
+    evidence and read by nothing): either the harness abstraction or the generator is wrong about what the passes
+    see, and the oracle entries are attached through the generator's reading.  -> (summary, [mismatch records])"""
+    compared = 0
+    mism = []
     for f in files:
-        dmp = dumps.get((f.name, DOC_DEFAULT), {})
-        by_line = {}
-        for df in dmp.get("defs", []):
-            for s in df.get("stmts", []):
-                if s["k"] == "constrain" or (s["k"] == "assign" and s["call"] is not None):
-                    by_line.setdefault(s["line"], []).append(s)
-        for t in f.tmpls:
-            for st in t.stmts:
-                e = st["expect"]
-                cands = [s for s in by_line.get(st.get("line"), []) if s["k"] == e["k"]]
-                compared += 1
-                ok = False
-                for s in cands:
-                    if e["k"] == "assign":
-                        args = s["call"]["args"]
-                        ok = (TK[s["tk"]] == e["tk"] and s["call"]["name"] == e["name"] and len(args) == len(e["args"]) and all(
-                            x == "curve-dependent" or (x is None and a["v"] == "-") or (isinstance(x, bool) and a["v"] == "b" and a["b"] == x)
-                            or (isinstance(x, int) and not isinstance(x, bool) and a["v"] == "f" and int(a["n"]) == x) for x, a in zip(e["args"], args)))
-                    else:
-                        ok = s["shown"] == e["shown"] and (not s["update"] or len(s["acc"]) == e["acc_len"])
-                    if ok:
-                        break
-                if not ok:
-                    mism += 1
-                    if len(first) < 5:
-                        first.append({"file": f.name, "line": st.get("line"), "statement": st["text"], "expected": e,
-                                      "derived": [{k: v for k, v in s.items() if k != "value"} for s in cands][:2]})
-    return {"statements_compared": compared, "mismatches": mism, "first": first}
+        for cv in VARIANTS:
+            dmp = dumps.get((f.name, cv), {})
+            by_line = {}
+            for df in dmp.get("defs", []):
+                for s in df.get("stmts", []):
+                    if s["k"] == "constrain" or (s["k"] == "assign" and s["call"] is not None):
+                        by_line.setdefault(s["line"], []).append(s)
+            for t in f.tmpls:
+                for st in t.stmts:
+                    e = st["expect"]
+                    cands = [s for s in by_line.get(st.get("line"), []) if s["k"] == e["k"]]
+                    compared += 1
+                    ok = False
+                    for s in cands:
+                        var_ok = e["var"] is None or s["var"].split("|")[0] == e["var"]
+                        if e["k"] == "assign":
+                            args = s["call"]["args"]
+                            ok = (var_ok and TK[s["tk"]] == e["tk"] and s["call"]["name"] == e["name"] and _acc_matches(e["acc"], s["acc"])
+                                  and len(args) == len(e["args"]) and all(
+                                x == "curve-dependent" or (x is None and a["v"] == "-") or (isinstance(x, bool) and a["v"] == "b" and a["b"] == x)
+                                or (isinstance(x, int) and not isinstance(x, bool) and a["v"] == "f" and int(a["n"]) == x) for x, a in zip(e["args"], args)))
+                        else:
+                            ok = var_ok and s["shown"] == e["shown"] and (not s["update"] or _acc_matches(e["acc"], s["acc"]))
+                        if ok:
+                            break
+                    if not ok:
+                        mism.append({"file": f.name, "curve": cv, "line": st.get("line"), "statement": st["text"], "expected": e,
+                                     "derived": [{k: v for k, v in s.items() if k != "value"} for s in cands][:2]})
+    return {"statements_compared": compared, "mismatches": len(mism), "first": mism[:5]}, mism
 
 
 # the forms the property text, the review and the pass sources speak of: each must occur in the sweep
 FEATURES = ("array_element_value", "compound_value", "prefix_value", "non_literal_index", "assign_signal", "inline_array_value",
             "anonymous_component", "shadowed_component", "function_definition", "custom_template", "component_array_2d",
-            "unknown_size", "boolean_size", "hex_size", "reversed_constraint_arrow", "main_component", "local_call", "same_operands_other_operator")
+            "unknown_size", "boolean_size", "hex_size", "reversed_constraint_arrow", "main_component", "local_call", "same_operands_other_operator",
+            # fourth audit: a key of every Expression constructor that can stand right of `<==`, every field eq inspects
+            "call_value", "same_arguments_other_function", "switch_value", "switches_differing_in_one_part", "prefix_neg_value",
+            "prefix_compl_value", "prefix_not_value", "number_value", "values_differing_in_an_ssa_version_only",
+            "component_variable_assigned_twice")
 
 
 def features_seen(dumps, texts):
@@ -1703,6 +1891,12 @@ def features_seen(dumps, texts):
                     n["compound_value"] += v.startswith("(i ")
                     n["prefix_value"] += v.startswith("(p ")
                     n["inline_array_value"] += v.startswith("(a ")
+                    n["call_value"] += v.startswith("(c ")
+                    n["switch_value"] += v.startswith("(s ")
+                    n["prefix_neg_value"] += v.startswith("(p neg ")
+                    n["prefix_compl_value"] += v.startswith("(p compl ")
+                    n["prefix_not_value"] += v.startswith("(p not ")
+                    n["number_value"] += v.startswith("(n ")
                     n["non_literal_index"] += any(k == "i" and not x.startswith("(n ") for k, x in s["acc"])
                 elif s["k"] == "assign":
                     n["anonymous_component"] += bool(s["call"]) and re.match(r"^%s_\d+_\d+\|" % re.escape(s["call"]["name"]), s["var"]) is not None
@@ -1714,6 +1908,16 @@ def features_seen(dumps, texts):
                         n["boolean_size"] += a["v"] == "b"
                 elif s.get("what") == "assign-signal":
                     n["assign_signal"] += 1
+            calls = [v.split(" ", 2) for v in values if v.startswith("(c ")]
+            n["same_arguments_other_function"] += sum(1 for a in calls for b in calls if a[1] < b[1] and a[2] == b[2])
+            sws = [v for v in values if v.startswith("(s ")]
+            n["switches_differing_in_one_part"] += sum(1 for a in sws for b in sws if a < b)
+            unversioned = {}
+            for v in values:
+                unversioned.setdefault(re.sub(r"\|\d+\)", "|)", v), set()).add(v)
+            n["values_differing_in_an_ssa_version_only"] += sum(1 for vs in unversioned.values() if len(vs) > 1)
+            assigned = [(s["var"], json.dumps(s["acc"])) for s in df.get("stmts", []) if s["k"] == "assign" and s["call"]]
+            n["component_variable_assigned_twice"] += len(assigned) - len(set(assigned))
             # two constrained values that differ in an operator only (what `Expression::eq` must tell apart)
             infix = [v.split(" ", 2) for v in values if v.startswith("(i ")]
             n["same_operands_other_operator"] += sum(1 for a in infix for b in infix if a[1] < b[1] and a[2] == b[2])
@@ -1725,6 +1929,7 @@ def features_seen(dumps, texts):
 
 
 KF_MAIN = "C11-main-component-not-analysed"
+KF_TWO_PATHS = "C11-component-assigned-on-two-paths"
 MAIN_PROBES = [
     # (name, curve argument, source, rule, line of the main component, subject)
     ("main_num2bits", None,
@@ -1857,16 +2062,21 @@ def run(ctx, proofs):
         evaluations += ev
         nontrivial |= nt
     # 1b. Expression::eq / Hash against structural identity, on every pair of key expressions of every definition
-    eq_pairs = 0
+    eq_pairs = eq_dropped = eq_distinct = 0
     for (fname, cv), dmp in dumps.items():
         eq_pairs += dmp.get("eq_pairs", 0)
+        eq_dropped += dmp.get("eq_keys_dropped_by_cap", 0)
+        eq_distinct += dmp.get("eq_distinct_keys", 0)
         for b in dmp.get("eq_bad", [])[:2]:
             failing.append({"input": {"kind": "expr-identity", "file": fname, "curve": cv, "subject": "%s / %s" % (b["a"], b["b"]),
                                       "definition": b["definition"], "lines": [b["line_a"], b["line_b"]], "source": texts[fname]},
                             "impl": "Expression::eq = %s (swapped: %s), hashes equal = %s" % (b["eq"], b["eq_swapped"], b["hash_equal"]),
                             "spec": "structurally %s expressions (syntactic equality: the keys of the LessThan pass)" % ("identical" if b["structurally_identical"] else "different")})
     # 1c. the generator's expectation of the abstraction vs the one derived from the IR (information: both are machinery)
-    abstraction = compare_expectation(files, dumps)
+    abstraction, abstraction_mismatches = compare_expectation(files, dumps)
+    for m in abstraction_mismatches[:10]:
+        disagreements.append({"what": "the abstraction derived from the tool's IR is not the one the generator expects for this statement "
+                                      "(%d such statements)" % len(abstraction_mismatches), **m})
     # 1d. every form the property and the pass sources speak of was generated (a feature never produced = a gap of the sweep)
     feature_count = features_seen(dumps, texts)
     for feat, n in feature_count.items():
@@ -1881,12 +2091,37 @@ def run(ctx, proofs):
     for pr in names["problems"]:
         disagreements.append({"what": pr})
     nontrivial |= {("curve-name", i) for i in range(names["accepted"])}
-    # 2b. the model's parse_curve on every spelling vs the executed Curve::from_str
+    # 2b. the model on every spelling: parse_curve vs the executed Curve::from_str, and (fourth audit) the model of the
+    # OTHER normaliser vs str::to_uppercase executed on the same spellings - so that `unicode_upper`, `utf8_decode` and
+    # the upper table are compared with the real thing on every run, not only when the source names `to_uppercase`
     spellings = list(names["observed"])
-    for s, mres in zip(spellings, model_spellings(ctx, spellings)):
+    m_parse, m_upper, m_parse_u = model_spellings(ctx, spellings)
+    arms = dict(info["sources"].get("from_str_arms", []))
+    upper_compared = upper_ascii_results = hyp_true = hyp_false = 0
+    for s, mres, mup, mpu, real in zip(spellings, m_parse, m_upper, m_parse_u, exec_to_uppercase(binary, spellings)):
         if mres != names["observed"][s]:
             disagreements.append({"what": "Model.Curves.parse_curve and Curve::from_str disagree", "spelling": s, "utf8_hex": hexs(s),
                                   "model": mres, "from_str": names["observed"][s]})
+        upper_compared += 1
+        want_up = real.encode("utf-8") if real.isascii() else None     # the model answers None when the result is not ASCII
+        upper_ascii_results += want_up is not None
+        if mup != want_up:
+            disagreements.append({"what": "Model.Curves.unicode_upper and str::to_uppercase disagree", "spelling": s, "utf8_hex": hexs(s),
+                                  "model": None if mup is None else mup.hex(), "to_uppercase": real, "to_uppercase_hex": hexs(real)})
+        # C11_normalisers_agree_on_ascii: its hypothesis (ascii_only s) is evaluated on every spelling
+        if s.isascii():
+            hyp_true += 1
+            if mpu != mres:
+                disagreements.append({"what": "instance of C11_normalisers_agree_on_ascii fails: an ASCII spelling on which the two normalisers differ",
+                                      "spelling": s, "to_ascii_uppercase": mres, "to_uppercase": mpu})
+        else:
+            hyp_false += 1
+        want_pu = arms.get(real, "reject")
+        if mpu != want_pu:
+            disagreements.append({"what": "Model.Curves.parse_curve_unicode and a look-up of str::to_uppercase among the arms disagree",
+                                  "spelling": s, "utf8_hex": hexs(s), "model": mpu, "expected": want_pu})
+    if not any(a != b for a, b in zip(m_parse, m_parse_u)):
+        disagreements.append({"what": "no spelling of the sweep is accepted under `to_uppercase` only: the model of that normaliser is not exercised"})
     # 3. the instantiation in a main component (known finding C11-main-component-not-analysed when listed)
     main_fail = main_component_probe(ctx, cli)
     evaluations += len(MAIN_PROBES)
@@ -1897,11 +2132,29 @@ def run(ctx, proofs):
                              main_fail[0]["input"]["curve"], main_fail[0]["impl"], main_fail[0]["spec"]))
     else:
         failing += main_fail
+    # 4. a component variable assigned on several paths (known finding C11-component-assigned-on-two-paths when listed):
+    # the class is narrow - an oracle entry of that form for which the binary reports nothing although a report is due
+    listed2 = [k for k in common.known_findings(P) if k.get("id") == KF_TWO_PATHS and k.get("status") == "known"]
+    def different_assignments(fc):
+        """the class of the record: ONE component key assigned on more than one path with different sizes / templates"""
+        for sz in fc["input"].get("sizes", []):
+            if isinstance(sz, dict):
+                for members in sz.values():
+                    if len(set(json.dumps(m) for m in members)) > 1:
+                        return True
+        return False
+    two = [fc for fc in failing if fc["input"].get("two_paths") and different_assignments(fc)
+           and fc["impl"].startswith("0 report") and fc["spec"].startswith("reported")]
+    if two and listed2:
+        failing = [fc for fc in failing if fc not in two]
+        ctx.known_finding(KF_TWO_PATHS, "%s (%d instances in this run, e.g. value `%s` in %s.circom under %s, sizes %s: %s, documented: %s)"
+                          % (listed2[0].get("what", ""), len(two), two[0]["input"]["value"], two[0]["input"]["file"], two[0]["input"]["curve"],
+                             json.dumps(two[0]["input"]["sizes"]), two[0]["impl"], two[0]["spec"]))
     # verdict: at most four replays; one per kind of failing input first (corpus witness, generated statement,
     # expression identity, curve name), so that the cap does not hide a whole class
     def kind_of(fc):
         fi = fc["input"]
-        return (fi.get("kind"), fi.get("rule"), "corpus" in fi)
+        return (fi.get("kind"), fi.get("rule"), "corpus" in fi, bool(fi.get("two_paths")), bool(fi.get("main_component")))
     firsts, rest, kinds = [], [], set()
     for fc in failing:
         (rest if kind_of(fc) in kinds else firsts).append(fc)
@@ -1975,8 +2228,13 @@ def run(ctx, proofs):
         "template_name_universe": len(name_universe(doc["rows"])),
         "curve_spellings": names["count"], "curve_spellings_accepted": names["accepted"],
         "non_ascii_curve_spellings": names["non_ascii"],
+        "to_uppercase_model_compared": {"spellings": upper_compared, "with_ascii_result": upper_ascii_results,
+                                        "accepted_only_under_to_uppercase": sum(1 for a, b in zip(m_parse, m_parse_u) if a != b),
+                                        "hypothesis_ascii_only_of_C11_normalisers_agree_on_ascii": {"true_and_conclusion_checked": hyp_true, "false": hyp_false}},
         "model_programs": "derived from the tool's IR (harness `curves ir`): %d (file, curve) dumps" % len(dumps),
         "expression_identity_pairs_checked": eq_pairs,
+        "expression_identity_keys": {"distinct_per_file_summed": eq_distinct, "dropped_by_the_cap_of_1400_per_file": eq_dropped,
+                                     "rule": "all key expressions of a FILE are paired (across its definitions), at most 3 occurrences of one identity"},
         "abstraction_expectation": abstraction,
         "features_generated": feature_count,
         "corpus_cases": ncorpus,
@@ -1998,6 +2256,10 @@ def run(ctx, proofs):
             "and prime-dependent constants against an independent oracle",
             "the instantiation in a main component is examined like one in a template: FALSE on the current tree "
             "(known finding C11-main-component-not-analysed)",
+            "a component VARIABLE assigned Num2Bits(k) on several paths counts as a range check only if every assignment does: FALSE on the "
+            "current tree - the last HashMap::insert in block order decides (reported per run: VIOLATION with the generated input, or known "
+            "finding C11-component-assigned-on-two-paths when listed); the model mirrors the overwrite, C11_lessthan_reports_exact restates it "
+            "(collected_inputs on both sides)",
         ],
     })
     ctx.assumptions += [
